@@ -973,12 +973,41 @@ def _dup(order, uni):
 
 
 _SAG = "self.allGlyphs"
-_INIT_READY = False
+_INIT_READY = True
+
+
+@specfn(List(STR), keys=Set(STR), O=List(STR))
+def order_term(keys, O):
+    """official_order(keys, O) as ONE term.  (The dummy self-call makes the engine keep an uninterpreted symbol with its defining equation
+    instead of inlining the concatenation: indexing the inlined `a + b + c` expands into a case split per part, and `O[i] == (a + b + c)[i]`
+    was then out of reach although `O == a + b + c` is a hypothesis; with one term it is congruence.)"""
+    if len(O) < 0:
+        return order_term(keys, O)
+    return official_order(keys, O)
+
+
+from .spec import official_order  # noqa: E402,F401  (natively used by order_term)
+
+
+def _strip_old(txt):
+    """`old(e)` -> `(e)`: a `raises` condition is evaluated in the pre-state anyway (and natively has no old())"""
+    out, k = "", 0
+    while True:
+        p = txt.find("old(", k)
+        if p < 0:
+            return out + txt[k:]
+        out += txt[k:p] + "("
+        depth, q = 1, p + 4
+        while depth:
+            depth += {"(": 1, ")": -1}.get(txt[q], 0)
+            q += 1
+        out += _strip_old(txt[p + 4:q - 1]) + ")"
+        k = q
 
 
 def _init_contract(case):
   _REQ, _KEYS_PRE, _E = _CASES[case]
-  _ORDER_PRE = f"official_order({_KEYS_PRE}, glyphOrder)"
+  _ORDER_PRE = f"order_term({_KEYS_PRE}, glyphOrder)"
   return contract(
     "ufo2ft.outlineCompiler:BaseOutlineCompiler.__init__",
     name="composition-" + case,
@@ -999,7 +1028,7 @@ def _init_contract(case):
         # (n is a bound variable: inside old(..) it keeps its post-state value, only the heap is the pre-state's)
         "code-points": f"all({_SAG}.glyphs[n].unicodes == {_E('n')} for n in {_SAG}.glyphs)",
         # '.notdef' first, the listed existing names, the rest sorted — of the final glyph set
-        "order": f"self.glyphOrder == {_ORDER_PRE}",
+        "order": f"self.glyphOrder == official_order({_KEYS_PRE}, glyphOrder)",
         "no-name-twice": "distinct(self.glyphOrder)",
         "only-glyph-names": f"all(self.glyphOrder[k] in {_KEYS_PRE} for k in range(len(self.glyphOrder)))",
         "every-glyph-name": f"all(x in self.glyphOrder for x in {_KEYS_PRE})",
@@ -1009,23 +1038,63 @@ def _init_contract(case):
     },
     # rejected exactly when two different (glyph of the final order, index) entries declare the same code point — the final order lists
     # every glyph exactly once (each-glyph-once), so: when two glyphs (or one glyph twice) declare the same code point
-    raises={"InvalidFontData": _dup(_ORDER_PRE, _E)},
+    raises={"InvalidFontData": _strip_old(_dup(_ORDER_PRE, _E))},
     canaries={"empty-map": "len(self.unicodeToGlyphNameMapping) == 0"},
-    canon_binders=False,  # the same clause evaluated twice (callee's raises / hint / this contract's raises) is the identical term
+    canon_binders=True,  # the same clause evaluated twice (callee's raises / hint / this contract's raises) is the identical term
     hints={"self.allGlyphs = glyphSet": [
         f"glyphSet.keyset == {_KEYS_PRE}",
         f"all(glyphSet.glyphs[n].unicodes == {_E('n')} for n in glyphSet.glyphs)",
     ], "self.glyphOrder = self.makeOfficialGlyphOrder(glyphOrder)": [
         # position-wise: the code points the mapping function will read are the pre-state entries
         f"all(all({_SAG}.glyphs[n].unicodes == {_E('n')} for n in [self.glyphOrder[i]]) for i in range(len(self.glyphOrder)))",
-        f"len(self.glyphOrder) == len({_ORDER_PRE}) and all(self.glyphOrder[i] == {_ORDER_PRE}[i] for i in range(len(self.glyphOrder)))",
+        f"self.glyphOrder == {_ORDER_PRE}",
+        f"all(self.glyphOrder[i] == {_ORDER_PRE}[i] for i in range(len(self.glyphOrder)))",
         f"all(all({_SAG}.glyphs[self.glyphOrder[i]].unicodes == {_E('n')} for n in [{_ORDER_PRE}[i]]) for i in range(len({_ORDER_PRE})))",
         # the rejection condition of the mapping function, read in the state now, is the pre-state condition of this contract
-        "implies(" + _dup("self.glyphOrder", lambda x: f"{_SAG}.glyphs[{x}].unicodes") + ", " + _dup(_ORDER_PRE, _E) + ")",
-        "implies(" + _dup(_ORDER_PRE, _E) + ", " + _dup("self.glyphOrder", lambda x: f"{_SAG}.glyphs[{x}].unicodes") + ")",
+        # (engine hint form `same-witnesses:` — the existentials of the conclusion are instantiated with the premise's witnesses)
+        "same-witnesses: implies(" + _dup("self.glyphOrder", lambda x: f"{_SAG}.glyphs[{x}].unicodes") + ", " + _dup(_ORDER_PRE, _E) + ")",
+        "same-witnesses: implies(" + _dup(_ORDER_PRE, _E) + ", " + _dup("self.glyphOrder", lambda x: f"{_SAG}.glyphs[{x}].unicodes") + ")",
     ]},
 )
 
 
+def _init_cases(case):
+    def gen(rng, n):
+        out = []
+        for k in range(3 * n):
+            names = rng.sample(["a", "b", "c", "space"], rng.randint(0, 4))
+            if case == "has-notdef":
+                names.append(".notdef")
+            uni = {nm: [rng.choice([65, 66, 67, 0x1F600, 32]) for _ in range(rng.randint(0, 2))] for nm in names}
+            if k % 4 == 0:  # mostly duplicate-free: distinct code points
+                pool = [65, 66, 67, 68, 69, 0x1F600, 32, 33, 34]
+                rng.shuffle(pool)
+                uni = {nm: [pool.pop() for _ in range(rng.randint(0, 2))] for nm in names}
+            order = rng.sample(names + ["zz"], rng.randint(0, len(names)))
+            out.append({"unicodes": uni, "order": order, "given": rng.choice([[], [65], [70, 70], [0x1F600, 71]]) if case == "copied-notdef" else None,
+                        "ufolib": ["ufoLib2", "defcon"][k % 2]})
+        return out[:n]
+
+    return gen
+
+
+def _init_build(d):
+    from ufo2ft.outlineCompiler import OutlineTTFCompiler
+
+    from . import rtlib
+
+    f = rtlib.build_ufo({"glyphs": {nm: {"width": 300, "unicodes": us} for nm, us in d["unicodes"].items()}}, d["ufolib"])
+    given = None
+    if d["given"] is not None:
+        f2 = rtlib.build_ufo({"glyphs": {".notdef": {"width": 444, "unicodes": d["given"], "contours": [[(0, 0, "line"), (10, 0, "line"), (5, 8, "line")]]}}}, d["ufolib"])
+        _KEEP.append(f2)
+        given = f2[".notdef"]
+    _KEEP.append(f)
+    del _KEEP[:-80]
+    _SRC[0] = given
+    return {"self": OutlineTTFCompiler.__new__(OutlineTTFCompiler), "font": f, "glyphSet": {g.name: g for g in f}, "glyphOrder": list(d["order"]), "notdefGlyph": given}
+
+
 for _case in _CASES:
-    _init_contract(_case)
+    _init_contract(_case).runtime = Runtime(_init_cases(_case), _init_build,
+                                            call=lambda fn, a: fn(a["self"], a["font"], glyphSet=a["glyphSet"], glyphOrder=a["glyphOrder"], notdefGlyph=a["notdefGlyph"]))
